@@ -16,7 +16,7 @@ check("C10", "Every listed decoder returns Ok/Err without panic, out-of-bounds a
       "trusted: Kani/CBMC, the tokio/ahash shims (not exercised by decoders); two decoders are known findings (GoldenTicket payload length, wallet file length)", "Kani/CBMC bounded model checking (symbolic byte buffers) of the compiled decoders", "DESIGN.md 4/C10")
 check("C03", "One-step (inductive) obligations on the chain index and on the utxoset wind/unwind of a transaction, each from an arbitrary pre-state inside a small size bound. Does not cover compositions over block trees.",
       "trusted: Kani/CBMC, ahash shim (association list), sizes concrete per harness", "Kani/CBMC bounded model checking of RingItem / BlockRing / Transaction::on_chain_reorganization steps", "DESIGN.md 4/C03")
-check("C08", "Routing work computed for a transaction equals the reference (fee halved per extra hop, zero unless the path is contiguous and ends at the creator) for every path of up to 5 (8) hops with symbolic keys and fees; decided by z3 over the MIR of the real function, counterexamples replayed natively.",
+check("C08", "Routing work computed for a transaction equals the reference (fee halved per extra hop, zero unless the path is contiguous and ends at the creator) for every path of up to 5 (8) hops with symbolic keys and fees, and Block::validate accepts only when total_work meets the computed requirement and an examined golden ticket validates; decided by z3 over the MIR of the real function, counterexamples replayed natively.",
       "trusted: mirsym's MIR semantics and std models (/verif/mirsym/models.py), z3; fee-transaction construction and the lottery are outside", "MIR-to-SMT symbolic execution (mirsym) decided by z3", "DESIGN.md 4/C08")
 check("C01", "Gating obligations on the real validation code: the block-level per-transaction step accepts only when Transaction::validate accepted, detects every re-spend of an output already recorded for the block or repeated inside the transaction and records every value-carrying input; the pool admits a transaction only after Transaction::validate(.., true) returned true. Decided by z3 over the MIR, all paths of the encoded bodies, small input counts.",
       "trusted: mirsym MIR semantics, std/map models, the utxo-key layout model; callees are uninterpreted; chain-history facts are outside", "MIR-to-SMT symbolic execution (mirsym) decided by z3", "DESIGN.md 4/C01")
@@ -24,12 +24,14 @@ NOT_APPLICABLE.setdefault('C02', NA_PENDING)
 NOT_APPLICABLE.setdefault('C04', NA_PENDING)
 check("C05", "The two fork-choice kernels agree with their reference rules for every value inside the bound: the longest-chain predicate (strictly longer, cumulative burn fee at least as large in u128, ahead of the current tip) for segments of up to 3 (4) blocks, and the 2-in-6 golden-ticket window for every ancestor depth 0..6 and flag pattern.",
       "trusted: mirsym semantics and models; which segments add_block passes in, and delivery-order effects, are outside", "MIR-to-SMT symbolic execution (mirsym) decided by z3", "DESIGN.md 4/C05")
-NOT_APPLICABLE.setdefault('C06', NA_PENDING)
+check("C06", "On every path of the real Block::validate body that returns true (full node, non-ghost block and parent) the creator's signature over the pre-hash was verified, the merkle root recomputed from the carried transactions equals the signed header's root, and every carried transaction passed the per-transaction validation; decided by z3 over all ~1500 paths with free callee results.",
+      "trusted: mirsym semantics; merkle tree injectivity and the hash derivation are outside; ghost-parent early return excluded (stated)", "MIR-to-SMT symbolic execution (mirsym) decided by z3", "DESIGN.md 4/C06")
 NOT_APPLICABLE.setdefault('C07', NA_PENDING)
 check("C09", "Slip encode/decode round-trips on every wire field for every slip value, and the transaction decoder accepts every input/output/message/hop count that the encoder and the validator accept (size header agreement), decided by z3 over the MIR of the real encoder and decoder. Other formats are not claimed.",
       "trusted: mirsym semantics, concat/extract models; blocks, messages, snapshot formats outside", "MIR-to-SMT symbolic execution (mirsym) decided by z3", "DESIGN.md 4/C09")
 NOT_APPLICABLE.setdefault('C11', NA_PENDING)
-NOT_APPLICABLE.setdefault('C13', NA_PENDING)
+check("C13", "Validator-side gates of the rebroadcast mechanism: an accepted block's rebroadcast hash and slip count equal the recomputed ones, and a rebroadcast (ATR) transaction cannot re-use an output already spent in the same block nor escape the double-spend scan. Selection/amount/expiry facts over histories are not claimed.",
+      "trusted: mirsym semantics, map and utxo-key models", "MIR-to-SMT symbolic execution (mirsym) decided by z3", "DESIGN.md 4/C13")
 NOT_APPLICABLE.setdefault('C14', NA_PENDING)
 NOT_APPLICABLE.setdefault('C15', NA_PENDING)
 NOT_APPLICABLE.setdefault('C16', NA_PENDING)
